@@ -139,7 +139,13 @@ fn full_walk<'a>(ctx: &mut Ctx, mut it: TagIter<'a>, payload: &[u8], pbase: usiz
                 } else {
                     ctx.class("walk:refused");
                 }
-                // after a caught panic the handle must never yield a tag
+                // after a caught panic the handle's bookkeeping methods still answer without panicking (size_hint, Debug
+                // of a clone) ...
+                if ctx.call("TagIter::size_hint(after panic)", || it.size_hint()).is_panic() {
+                    ctx.violation(&format!("c03/size-hint-after-panic/{:?}", seam), || "size_hint() panicked on a handle whose walk was refused".into());
+                }
+                let _ = ctx.call("TagIter::clone(after panic)", || it.clone().size_hint());
+                // ... and the handle must never yield a tag
                 for _ in 0..2 {
                     if let Out::Val(Some(_)) = ctx.call("TagIter::next(after panic)", || it.next().map(|_| ())) {
                         ctx.violation(&format!("c03/yield-after-panic/{:?}", seam), || "next() yields a tag after it refused the walk".into());
